@@ -5,6 +5,7 @@
    Requests:
      ("queries" #img)                                   -> inflate queries of a file
      ("view" #img fuel relocate follow has_loader fs tbl) -> (model spec)
+     ("seq" #img fuel has_loader fs tbl ((relocate follow) ...)) -> model answers of a call sequence on one object
      ("presence" #img strict)                           -> (model spec)
      ("link" #img)                                      -> (has_dwarf_link get_dwarf_link)
      ("crc" #bytes)                                     -> (crc32_model file_crc32 crc32_poly)
@@ -102,6 +103,16 @@ Definition dispatch (req : sx) : sx :=
          | Ok e => sx_opt sx_view (debug_view infl parse_opt (gnat a2) fs e (gbool a3) (gbool a4))
          | Err _ => sx_none
          end ]
+  else if op =? "seq" then
+    (* ("seq" #img fuel has_loader fs tbl ((relocate follow) ...)): the answers of obj_run on a fresh object *)
+    let infl := tbl_inflate (gL a5) in
+    let fs := fs_of (gbool a3) (gL a4) in
+    match parse_image (gB a1) with
+    | Ok e => sx_ok (SL (map (sx_res sx_dwarfinfo)
+                (obj_run infl (gnat a2) fs e None
+                   (map (fun c => (gbool (nthx 0 (gL c)), gbool (nthx 1 (gL c)))) (gL a6)))))
+    | Err x => sx_of_err x
+    end
   else if op =? "presence" then
     SL [ sx_res sx_bool (img_has_dwarf_info (gB a1) (gbool a2));
          match parse_image (gB a1) with
